@@ -148,6 +148,39 @@ func ruleValidCoupling(p *Prog, r *Report) {
 					return
 				}
 				if g := staticCallee(&c.Call); g != nil && p.InModule(g) && !p.Exported(g) && g != f {
+					// the output accumulator itself handed to a helper that decodes from it
+					if f == fn {
+						for i, a := range c.Call.Args {
+							src := a
+							if mi, ok := src.(*ssa.MakeInterface); ok {
+								src = mi.X
+							}
+							if src != acc || i >= len(g.Params) {
+								continue
+							}
+							prm := g.Params[i]
+							eachInstr(g, func(b4 *ssa.BasicBlock, i4 ssa.Instruction) {
+								if c4, ok := i4.(*ssa.Call); ok && isCallTo(&c4.Call, "encoding/xml.NewDecoder") {
+									s4 := c4.Call.Args[0]
+									for {
+										if mi, ok := s4.(*ssa.MakeInterface); ok {
+											s4 = mi.X
+											continue
+										}
+										if ci, ok := s4.(*ssa.ChangeInterface); ok {
+											s4 = ci.X
+											continue
+										}
+										break
+									}
+									if s4 == ssa.Value(prm) {
+										consumed = p.Pos(c.Pos())
+										nDec++
+									}
+								}
+							})
+						}
+					}
 					reads := false
 					for h := range p.Reach(g) {
 						if !p.InModule(h) && (extName(h) == "(*encoding/xml.Decoder).Token" || extName(h) == "(*encoding/xml.Decoder).RawToken") {
@@ -1414,6 +1447,38 @@ func ruleCastParsers(p *Prog, r *Report) {
 						}
 					}
 				})
+			}
+			// the text denotes a decimal number of 64 bits: base 10 (a base of 0 reads "010" as octal), bit size 64
+			badArgs := ""
+			scanArgs := func(f *ssa.Function) {
+				eachInstr(f, func(b *ssa.BasicBlock, in ssa.Instruction) {
+					c, ok := in.(*ssa.Call)
+					if !ok || !isCallTo(&c.Call, ps) {
+						return
+					}
+					switch ps {
+					case "strconv.ParseInt", "strconv.ParseUint":
+						if k, isK := constInt(c.Call.Args[1]); !isK || k != 10 {
+							badArgs = "base argument at " + p.Pos(c.Pos()) + " is not 10"
+						}
+						if k, isK := constInt(c.Call.Args[2]); !isK || k != 64 {
+							badArgs = "bit size at " + p.Pos(c.Pos()) + " is not 64"
+						}
+					case "strconv.ParseFloat":
+						if k, isK := constInt(c.Call.Args[1]); !isK || k != 64 {
+							badArgs = "bit size at " + p.Pos(c.Pos()) + " is not 64"
+						}
+					}
+				})
+			}
+			scanArgs(fn)
+			for _, ch := range p.castHelpers(fn) {
+				scanArgs(ch.h)
+			}
+			if badArgs != "" {
+				r.Bad(rule, "mxj.cast", ps+" reads the text as a decimal 64-bit number", p.Pos(fn.Pos()), badArgs+": the number stored is not the one the text denotes (a leading zero would mean octal, a narrower size rounds)")
+			} else if found {
+				r.OK(rule, "mxj.cast", ps+" reads the text as a decimal 64-bit number", p.Pos(fn.Pos()), "base 10 / 64 bits")
 			}
 			if foreign != "" {
 				r.Bad(rule, "mxj.cast", vn+" alone enables "+ps, p.Pos(fn.Pos()), "the call of "+ps+" is also conditional on another cast switch ("+foreign+"): the switches are documented as independent, so one of them silently disables the other")
